@@ -261,6 +261,13 @@ def run_hist_property(rep, tier, seed, wd, pid, kinds, opts, sizes, judges=(), e
             h["gomaxprocs"] = p
         all_h += cur
     rep.cov["traces_validated_against_impl"] = len(all_h)
+    # a request that is never answered (the harness's two-minute watchdog per request)
+    for h in all_h:
+        for i, il in enumerate(h.get("impl", [])):
+            if il.startswith("TIMEOUT") and i < len(h["ops"]):
+                rep.violation("request-never-answered", "a request was not answered within the watchdog: " + h["ops"][i][:120],
+                              {"config": h["cfg"], "ops": h["ops"][:i + 1], "gomaxprocs": h.get("gomaxprocs")})
+                break
     first_bad = None
     for hi, h in enumerate(all_h):
         rel = [b for b in h["bad"] if b[1].split()[0] in kinds or b[0] == -1]
@@ -410,6 +417,9 @@ def c01(rep, tier, seed, wd, replay):
     run_hist_property(rep, tier, seed, wd, "C01", ("att", "atts", "atts0", "export", "restart", "twinatt"), opts, sizes,
                       judges=[judge_slash("C01"), judge_twin("C01"), judge_prior("C01")], nontrivial=nontriv,
                       extra_hist=lambda k_, r_: twin_histories("att")(k_, r_) + legacy_histories("att", build_harness(wd))(k_, r_))
+    if REPLAY is None or any(o.startswith("pause") for o in REPLAY.get("ops", [])):
+        dh_s = build_harness(wd)
+        startup_stage(rep, dh_s, wd, hist.interop_keys(dh_s), False)
     if REPLAY is None or "rbatch" in REPLAY:
         # batches far wider than any wallet here could hold, at the ruler (as the signer hands them over), over synthetic
         # validator keys: whatever the store does with a batch of 10^5 entries, a vote conflicting with one just approved is refused
@@ -460,6 +470,11 @@ def c02(rep, tier, seed, wd, replay):
     run_hist_property(rep, tier, seed, wd, "C02", ("prop", "export", "restart", "twinprop"), opts, sizes,
                       judges=[judge_slash("C02"), judge_twin("C02"), judge_prior("C02")], nontrivial=nontriv,
                       extra_hist=lambda k_, r_: twin_histories("prop")(k_, r_) + legacy_histories("prop", build_harness(wd))(k_, r_))
+    # start-up on stores carried over from an earlier release (see startup_stage): what the first requests after a start record
+    # must not be undone by anything else the service does while it starts
+    if REPLAY is None or any(o.startswith("pause") for o in REPLAY.get("ops", [])):
+        dh_s = build_harness(wd)
+        startup_stage(rep, dh_s, wd, hist.interop_keys(dh_s), False)
     if REPLAY is None or "scenario" in REPLAY:
         # histories with concurrently issued requests: keys with high watermarks are re-asked for signed slots while
         # other keys advance (judged order-free: no two released proposals of one key share a slot)
@@ -637,6 +652,17 @@ def c06_faults(keys, rng):
                     "atts %s - - %s" % (hx("client1"), items2), "export"]})
             ms = ";".join("%s,%s,%s" % (ns[i], dom_r, (bytes([0xA0 + i]) * 32).hex()) for i in range(n))
             H.append({"cfg": cfg, "accts": accts, "opts": {}, "ops": ["msign %s - g%d %s" % (hx("client1"), pos, ms)]})
+        # "r<k>": the ruler hands the signer only the first k of its n verdicts (dirk's own ruler never does; the signer must not
+        # sign a position nobody ruled on) — alone, and together with a signing failure inside the answered part
+        for k in range(1, n):
+            items = ";".join(att_item(ns[i], 1, 2, i % 4) for i in range(n))
+            items2 = ";".join(att_item(ns[i], 2, 3, (i + 1) % 4) for i in range(n))
+            ms = ";".join("%s,%s,%s" % (ns[i], dom_r, (bytes([0xA0 + i]) * 32).hex()) for i in range(n))
+            for extra in ("", ",g0"):
+                H.append({"cfg": cfg, "accts": accts, "opts": {}, "ops": [
+                    "atts %s - r%d%s %s" % (hx("client1"), k, extra, items), "atts %s - - %s" % (hx("client1"), items),
+                    "atts %s - - %s" % (hx("client1"), items2), "export",
+                    "msign %s - r%d%s %s" % (hx("client1"), k, extra, ms), "msign %s - - %s" % (hx("client1"), ms)]})
     # undecodable / truncated / legacy records on disk
     pk = accts[0].pk
     raws = [
@@ -705,6 +731,9 @@ def c06(rep, tier, seed, wd, replay):
                 # positions with a failing step on their path must not carry a signature
                 fl = f[5] if f[0] in ("att", "prop", "sign") else (f[3] if f[0] in ("atts", "msign") else "-")
                 toks = [] if fl == "-" else fl.split(",")
+                def unruled(toks_, j_):
+                    # "r<k>": the ruler gave no verdict for positions k, k+1, …
+                    return any(t[0] == "r" and j_ >= int(t[1:]) for t in toks_)
                 if f[0] in ("att", "prop"):
                     key = hist.key_of_addr(f[3], h["accts"])
                     onpath = any(t[0] in "fsSgbcu" for t in toks) or (key, 2 if f[0] == "att" else 3) in bad
@@ -715,12 +744,12 @@ def c06(rep, tier, seed, wd, replay):
                     keys = [hist.key_of_addr(it.split(",")[0], h["accts"]) for it in items]
                     whole = any(t[0] in "fsSbcu" for t in toks) or (len(items) > 1 and any((k, 2) in bad for k in keys))
                     for j, pos in enumerate(poss):
-                        onpath = whole or ("g%d" % j) in toks or (j < len(keys) and (keys[j], 2) in bad)
+                        onpath = whole or ("g%d" % j) in toks or (j < len(keys) and (keys[j], 2) in bad) or unruled(toks, j)
                         if onpath:
                             yield ("jfault %d" % (1 if ":" in pos else 0), (i, j, op[:200]))
                 elif f[0] in ("sign", "msign"):
                     for j, pos in enumerate(poss):
-                        if ("g%d" % j) in toks or "u" in toks:
+                        if ("g%d" % j) in toks or "u" in toks or unruled(toks, j):
                             yield ("jfault %d" % (1 if ":" in pos else 0), (i, j, op[:200]))
 
     def judge(rep, dh, wd, all_h):
@@ -1062,8 +1091,20 @@ def c07(rep, tier, seed, wd, replay):
                 rep.violation("listed-without-permission", "a listing shows an account the client's permissions do not grant access to",
                               {"config": m[0], "ops": [m[1]] * 3, "impl": m[2]})
                 break
-    run_hist_property(rep, tier, seed, wd, "C07", SIGN_KINDS + ("export", "lockacct", "unlockacct"), opts, sizes, corpus=False, judges=[judge_released],
-                      extra_hist=lambda keys, rng: acctmgr_histories(keys, rng, *tier_sizes(tier, (6, 18), (60, 40))))
+    def identity_variants(keys_, rng_):
+        """through the real gRPC API, callers whose verified certificate subject differs from a configured client's name in letter
+        case, by surrounding blanks, or by a trailing dot: they are other identities and have no permissions"""
+        accts_, perms_, admins_ = hist.std_config(keys_, nacct=3, locked=False)
+        cfg_ = ["viagrpc"] + hist.config_lines(accts_, perms_, admins_)
+        n0_ = "n:" + hx(accts_[0].path)
+        r32_ = (bytes([0xA1]) * 32).hex()
+        ops_ = []
+        for q, who in enumerate(["client1", "Client1", "CLIENT1", "client1 ", " client1", "client1.", "cliENT1", "client1"]):
+            ops_ += ["sign %s - %s %s,%s -" % (hx(who), n0_, (DOM_RANDAO + bytes(28)).hex(), r32_), att_line(who, n0_, 1 + q, 2 + q, 0),
+                     prop_line(who, n0_, 1 + q, 0), "list %s %s" % (hx(who), hx("Wallet 1"))]
+        return [{"cfg": cfg_, "ops": ops_, "accts": accts_, "opts": {}}]
+    run_hist_property(rep, tier, seed, wd, "C07", SIGN_KINDS + ("export", "lockacct", "unlockacct", "list"), opts, sizes, corpus=False, judges=[judge_released],
+                      extra_hist=lambda keys, rng: acctmgr_histories(keys, rng, *tier_sizes(tier, (6, 18), (60, 40))) + identity_variants(keys, rng))
 
 
 def run_imp_scenarios(rep, dh, wd, scen, label="imp"):
@@ -1186,6 +1227,13 @@ def c10(rep, tier, seed, wd, replay):
     scen.append((cfg, ["export", imp.import_line(G, ("5", G), [("0x" + k0.hex(), ["3"], [("7", "9")])]), "export"]))
     scen.append((cfg, ["export", imp.import_line(G, ("5", G), [("0x" + k0.hex(), ["30"], []), ("0x" + k0.hex(), ["12"], [("8", "9")])]), "export"]))
     scen.append((["begin"], ["export", imp.import_line(G, ("5", G), [("0x" + k0.hex(), ["30"], [("1", "2")]), ("0x" + k0.hex(), ["12"], [])]), "export"]))
+    # numbers written with leading zeros, a sign, blanks, a base prefix or an exponent: read as DECIMAL integers or refused,
+    # never as something smaller
+    for blk_, att_ in (("0100", ("010", "020")), ("00000000000000000077", ("0007", "0070")), ("+5", ("1", "2")), ("0x10", ("1", "2")), ("1e3", ("1", "2")),
+                       (" 12", ("1", "2")), ("12 ", ("1", "2")), ("0o17", ("1", "2")), ("0b11", ("1", "2")), ("1_000", ("1", "2"))):
+        scen.append((["begin"], ["export", imp.import_line(G, ("5", G), [("0x" + k0.hex(), [blk_], [att_])]), "export",
+                                 "probeprop %s 70" % k0.hex(), "probeatt %s 8 15" % k0.hex(), "export"]))
+        scen.append((cfg, ["export", imp.import_line(G, ("5", G), [("0x" + k0.hex(), [blk_], [att_])]), "export"]))
     # the import command while an instance is active on the store: refused, nothing changes
     live_ = imp.import_line(G, ("5", G), [("0x" + k0.hex(), ["100"], [("50", "60")])]).replace("import ", "importlive ", 1)
     scen.append((cfg, ["export", live_, "export", "probeprop %s 50" % k0.hex(), imp.import_line(G, ("5", G), [("0x" + k0.hex(), ["100"], [])]), "export"]))
@@ -1258,7 +1306,7 @@ def c08(rep, tier, seed, wd, replay):
     dh = build_harness(wd)
     big = tier == "thorough"
     nacct = 600 if big else 300
-    keys = hist.interop_keys(dh, nacct + 6)
+    keys = hist.interop_keys(dh, nacct + 8)
     rng = Rng(seed * 31337 + 8)
     accts = [hist.Acct("Wallet 1" if i % 2 == 0 else "Wallet 2", "Account %d" % i, keys[i]) for i in range(nacct)]
     locked = hist.Acct("Wallet 1", "Locked", keys[nacct], unlockable=False)
@@ -1268,8 +1316,12 @@ def c08(rep, tier, seed, wd, replay):
     comp1 = keys[nacct + 3]
     dist1 = hist.Acct("DWallet", "Share 1", keys[nacct + 2], dist="C=%s;1=signer-test01:8881;2=signer-test02:8882;3=signer-test03:8883" % comp1.hex())
     dist2 = hist.Acct("DWallet", "Share 2", keys[nacct + 4], dist="C=%s;1=signer-test01:8881;2=signer-test02:8882;3=signer-test03:8883" % keys[0].hex())
+    # account names that contain a slash (a path splits at the FIRST slash only), beside the account named like their first
+    # element: "Wallet 1/Account 0/withdrawal" is not "Wallet 1/Account 0"
+    sl1 = hist.Acct("Wallet 1", "Account 0/withdrawal", keys[nacct + 5])
+    sl2 = hist.Acct("Wallet 2", "Account 1/a/b", keys[nacct + 6])
     perms = [("c", ".*", ["All"])]
-    cfg = hist.config_lines(accts + [locked, dist1, dist2], perms, ["10.0.0.1"])
+    cfg = hist.config_lines(accts + [locked, dist1, dist2, sl1, sl2], perms, ["10.0.0.1"])
     sizes = [1, 2, 3, 15, 16, 17, 33, 64, 65] + ([127, 128, 129] if big else [])
     big_sizes = [257, 300] + ([255, 256, 513, 600] if big else [])
     ops = []
@@ -1350,6 +1402,13 @@ def c08(rep, tier, seed, wd, replay):
         ops.append("prop %s - k:%s %s,%d,1,%s,%s,%s -" % (hx("c"), kx.hex(), hist.dom32(DOM_PROP, rng).hex(), 900, rr_(), rr_(), rr_()))
     ops.append("msign %s - - %s" % (hx("c"), ";".join("k:%s,%s,%s" % (kx.hex(), hist.dom32(DOM_RANDAO, rng).hex(), rr_()) for kx in (keys[0], dist1.pk, keys[1], dist2.pk))))
     ops.append("msign %s - - %s" % (hx("c"), ";".join("k:%s,%s,%s" % (kx.hex(), hist.dom32(DOM_RANDAO, rng).hex(), rr_()) for kx in (keys[1], comp1, keys[2]))))
+    # names with slashes, and spellings a lenient reader might "tidy" (blanks, doubled / trailing slashes): only the exact
+    # name of an account addresses it
+    for nm_ in (sl1.path, sl2.path, accts[0].path, accts[1].path, accts[0].path + "/", "Wallet 1//Account 0", " " + accts[0].path, accts[0].path + " ",
+                "Wallet 1/ Account 0", sl2.path + "/c", "Wallet 2/Account 1/a"):
+        ops.append("sign %s - n:%s %s,%s -" % (hx("c"), hx(nm_), hist.dom32(DOM_RANDAO, rng).hex(), rr_()))
+        ops.append("att %s - n:%s %s,%d,%d,%s,%d,%s,%d,%s -" % (hx("c"), hx(nm_), hist.dom32(DOM_ATT, rng).hex(), 3, 1, rr_(), 950, rr_(), 951, rr_()))
+    ops.append("msign %s - - %s" % (hx("c"), ";".join("n:%s,%s,%s" % (hx(nm_), hist.dom32(DOM_RANDAO, rng).hex(), rr_()) for nm_ in (sl1.path, accts[0].path, sl2.path))))
     for i in range(40 if not big else 300):
         a = rng.choice(accts)
         rt = [bytes(rng.below(256) for _ in range(32)).hex() for _ in range(3)]
@@ -1359,16 +1418,16 @@ def c08(rep, tier, seed, wd, replay):
         ops.append("sign %s - %s %s,%s -" % (hx("c"), adr(a), hist.dom32(DOM_RANDAO, rng).hex(), rt[0]))
         epoch += 2
     all_h = []
-    runs = [({"cfg": cfg, "ops": ops, "accts": accts + [locked, dist1, dist2], "opts": {}, "gomaxprocs": p}, "ssz") for p in ([1, 2, 3, 16] if not big else [1, 2, 3, 16, 128])]
-    runs.append(({"cfg": cfg, "ops": ops_big, "accts": accts + [locked, dist1, dist2], "opts": {}, "gomaxprocs": 3}, "ssz-big"))
+    runs = [({"cfg": cfg, "ops": ops, "accts": accts + [locked, dist1, dist2, sl1, sl2], "opts": {}, "gomaxprocs": p}, "ssz") for p in ([1, 2, 3, 16] if not big else [1, 2, 3, 16, 128])]
+    runs.append(({"cfg": cfg, "ops": ops_big, "accts": accts + [locked, dist1, dist2, sl1, sl2], "opts": {}, "gomaxprocs": 3}, "ssz-big"))
     # the same requests through the real gRPC API (TLS, interceptors, handlers): whatever the handlers do with a batch
     # (splitting, copying results back) must keep entry i the answer to request i
     for p in ([4] if not big else [2, 16]):
-        runs.append(({"cfg": ["viagrpc"] + cfg, "ops": ops_big + ops[:12], "accts": accts + [locked, dist1, dist2], "opts": {}, "gomaxprocs": p, "viagrpc": True}, "ssz-grpc"))
+        runs.append(({"cfg": ["viagrpc"] + cfg, "ops": ops_big + ops[:12], "accts": accts + [locked, dist1, dist2, sl1, sl2], "opts": {}, "gomaxprocs": p, "viagrpc": True}, "ssz-grpc"))
     # the same with every service logging at trace level (to a discarding writer): whatever code runs only when a log entry is
     # enabled must not touch what is signed — directly and through the gRPC API
-    runs.append(({"cfg": ["tracelog"] + cfg, "ops": ops, "accts": accts + [locked, dist1, dist2], "opts": {}, "gomaxprocs": 2}, "ssz-trace"))
-    runs.append(({"cfg": ["tracelog", "viagrpc"] + cfg, "ops": ops, "accts": accts + [locked, dist1, dist2], "opts": {}, "gomaxprocs": 3, "viagrpc": True}, "ssz-grpc-trace"))
+    runs.append(({"cfg": ["tracelog"] + cfg, "ops": ops, "accts": accts + [locked, dist1, dist2, sl1, sl2], "opts": {}, "gomaxprocs": 2}, "ssz-trace"))
+    runs.append(({"cfg": ["tracelog", "viagrpc"] + cfg, "ops": ops, "accts": accts + [locked, dist1, dist2, sl1, sl2], "opts": {}, "gomaxprocs": 3, "viagrpc": True}, "ssz-grpc-trace"))
     from concurrent.futures import ThreadPoolExecutor as _TPE
 
     def _run(hr):
@@ -1404,7 +1463,7 @@ def c08(rep, tier, seed, wd, replay):
         res_ = conc_.parse_go(io_[1 + 1 + len(cops)])
         ops_ = [op for _, op in cops]
         mo_ = _rm(["reset"] + cfg + ops_)
-        h = {"cfg": cfg, "ops": ops_, "accts": accts + [locked, dist1, dist2], "opts": {}, "gomaxprocs": p, "impl": [x[2] for x in res_], "model": mo_[1:], "bad": [],
+        h = {"cfg": cfg, "ops": ops_, "accts": accts + [locked, dist1, dist2, sl1, sl2], "opts": {}, "gomaxprocs": p, "impl": [x[2] for x in res_], "model": mo_[1:], "bad": [],
              "concurrent": True}
         all_h.append(h)
         rep.dist("concurrent_signing_requests", "GOMAXPROCS=%d" % p, len(cops))
@@ -1564,9 +1623,22 @@ def c09(rep, tier, seed, wd, replay):
             ops_.append("atts %s - - %s" % (hx("client1"), ";".join(att_item(r2.choice(["n:" + hx(a_.path), "k:" + a_.pk.hex()]), 8, 10, 1) for a_ in order_)))
             ops_.append("atts %s - - %s" % (hx("client1"), ";".join(att_item("n:" + hx(a_.path), 10, 12, 2) for a_ in r2.shuffle(accts_))))
             H.append({"cfg": cfg_, "ops": ops_, "accts": accts_, "opts": {}})
+        # batches of hundreds and thousands of validators at the ruler (synthetic keys): every valid, advancing entry is approved,
+        # in one batch exactly as one at a time
+        a2_, p2_, ad2_ = hist.std_config(keys_, nacct=2, locked=False)
+        H.append({"cfg": hist.config_lines(a2_, p2_, ad2_), "accts": a2_, "opts": {},
+                  "ops": ["rbatch 400 0 1 2 0", "rbatch 3000 1000 1 2 0", "rbatch 1 5000 1 2 0", "rbatch 400 0 2 3 1", "rbatch 3000 1000 2 3 1"],
+                  "rbatch_want": [400, 3000, 1, 400, 3000]})
         return H
 
     def judge(rep, dh, wd, all_h):
+        for h in all_h:
+            for i, w_ in enumerate(h.get("rbatch_want", [])):
+                m_ = re.search(r"A=(\d+)", h["impl"][i]) if i < len(h["impl"]) else None
+                if m_ and int(m_.group(1)) != w_:
+                    rep.violation("refused-advancing", "in a batch of %d valid, advancing attestations for distinct validators only %s were approved" % (w_, m_.group(1)),
+                                  {"config": h["cfg"], "ops": h["ops"][:i + 1], "gomaxprocs": h.get("gomaxprocs")})
+                    return True
         bad = judge_lines(rep, all_h, live_lines, "requests_judged_for_liveness")
         bad = [b for b in bad if b[-1] == "REFUSED-ADVANCING"]
         if bad:
@@ -2238,8 +2310,8 @@ def c03(rep, tier, seed, wd, replay):
         # what was answered before the kill is what the model answers (a store fault must not end in a signature)
         for oi, (x, y) in enumerate(zip(lines, pre_model)):
             if hist.states_of(x) != hist.states_of(y) and not found:
-                if "S" in hist.states_of(x) and "s" in ops[oi].split(" "):
-                    rep.violation("released-despite-store-fault", "a request whose slashing-protection write failed was answered with a signature",
+                if "S" in hist.states_of(x) and any(t_ in ("s",) or (t_[:1] == "f" and t_[1:].isdigit()) for t_ in ops[oi].split(" ")):
+                    rep.violation("released-despite-store-fault", "a request whose slashing-protection read or write failed was answered with a signature",
                                   {"config": cfg, "ops": ops[:oi + 1], "kill_at_point": j, "impl": x[:200], "model": y[:200]})
                     found = True
                 else:
@@ -2321,7 +2393,7 @@ def c03(rep, tier, seed, wd, replay):
                            json.dumps({"config": h["cfg"], "ops": h["ops"][:i + 1], "impl": il[:300], "model": ml_[:300]}), found))
 
 
-DKG_DIFF_OPS = ("cluster", "gen", "gens", "holds", "cprepare", "hprepare", "hprepares", "hexecute", "hcontribute", "hcommit", "habort", "sleep", "ctxdl")
+DKG_DIFF_OPS = ("cluster", "gen", "gens", "gensp", "holds", "cprepare", "hprepare", "hprepares", "hexecute", "hexecute2", "hcontribute", "hcommit", "habort", "sleep", "ctxdl")
 
 
 def c18(rep, tier, seed, wd, replay):
@@ -2750,7 +2822,7 @@ def c19(rep, tier, seed, wd, replay):
         rep.broken.append(("correspondence:tls(transport model with the regenerated client-auth mode vs daemon)", json.dumps(first_bad), found))
 
 
-DKG_DIFF_OPS_C14 = ("iatt", "iattx", "iatts", "iatts2", "iattsu", "iprop")
+DKG_DIFF_OPS_C14 = ("iatt", "iattx", "iattb", "iatts", "iatts2", "iattsu", "iprop")
 
 
 def c14(rep, tier, seed, wd, replay):
@@ -2996,8 +3068,14 @@ def c12(rep, tier, seed, wd, replay):
                     found = True
             elif f[0] == "gen":
                 rep.dist("generation", "refused")
+            if f[0] == "gensp":
+                for spec_, o_ in zip(f[4:], o.split()):
+                    rep.dist("generation", "ok(concurrent)" if o_ == "ok" else "refused(concurrent)")
+                    if o_ == "ok":
+                        pubs[spec_.split(":", 1)[1]] = ""      # reported success (composite key not printed)
+                        success = True
             if f[0] == "relations" and f[1] in pubs:      # judged only for a name whose generation reported success
-                if not o.startswith("ok") or ("composite=" + pubs.get(f[1], "?")) not in o:
+                if not o.startswith("ok") or (pubs.get(f[1]) and ("composite=" + pubs.get(f[1], "?")) not in o):
                     rep.violation("inconsistent-key", "after a successful generation the participants do not hold one consistent threshold key: " + o[:120],
                                   {"scenario": r_["tag"], "lines": r_["lines"][:i + 1], "impl": r_["impl"][:i + 1]})
                     found = True
@@ -3064,7 +3142,16 @@ def c13(rep, tier, seed, wd, replay):
             continue
         if r_["bad"] and first_bad is None:
             first_bad = r_
-        if fault == "dup":
+        if fault.split(":")[0] == "dup":
+            # a valid contribution delivered twice is not an invalid exchange: the generation may succeed (then EVERY participant
+            # holds the account) or end with an error (then NONE does)
+            gen_o, holds_o = r_["impl"][1], r_["impl"][2]
+            rep.dist("duplicate_delivery", gen_o.split()[0])
+            if (gen_o.startswith("ok") and "false" in holds_o) or (not gen_o.startswith("ok") and "true" in holds_o):
+                rep.violation("account-after-dup", "after a contribution was delivered twice the generation %s but %s" %
+                              ("reported success" if gen_o.startswith("ok") else "ended with an error", "not every participant holds the account" if gen_o.startswith("ok") else "some participants hold an account"),
+                              {"scenario": r_["tag"], "lines": r_["lines"][:3], "impl": r_["impl"][:3]})
+                found = True
             continue
         if fault == "overlap":
             gens_o, holds_o = r_["impl"][1], r_["impl"][2]
@@ -3167,6 +3254,18 @@ def c16(rep, tier, seed, wd, replay):
                     found = True
         for (i, l, a, b) in r_["bad"]:
             f = l.split()
+            if f[0] == "hexecute2" and len(a.split()) == 2 and len(b.split()) == 2:
+                for q_, (ta, tb) in enumerate(zip(a.split(), b.split())):
+                    if tb == "E:unknownsender" and ta != tb and not found:
+                        rep.violation("non-peer-honoured", "an Execute from a caller that is not a configured peer, overlapping a peer's Execute for the same account, was acted on (%s)" % ta,
+                                      {"scenario": r_["tag"], "lines": r_["lines"][:i + 1], "impl": r_["impl"][:i + 1]})
+                        found = True
+                    elif tb == "ok" and ta == "E:unknownsender" and not found:
+                        rep.violation("refused-message-changed-state", "a peer's Execute was refused as 'unknown sender' because a non-peer's Execute for the same account was in flight",
+                                      {"scenario": r_["tag"], "lines": r_["lines"][:i + 1], "impl": r_["impl"][:i + 1]})
+                        found = True
+                if found:
+                    break
             if f[0] in dkg.MSGS and b == "E:unknownsender" and a != b:
                 rep.violation("non-peer-honoured", "a key-generation message from a caller that is not a configured peer was acted on (%s)" % a,
                               {"scenario": r_["tag"], "lines": r_["lines"][:i + 1], "impl": r_["impl"][:i + 1]})
@@ -3239,6 +3338,13 @@ def c17(rep, tier, seed, wd, replay):
                 jm.append(None)
         if r_["bad"] and first_bad is None:
             first_bad = r_
+        # "after the timeout (commit, abort) a new generation for that name may start": a Prepare from a peer that the state
+        # machine accepts (no generation active for the name on that instance) must not be refused
+        for (i, l, a, b) in r_["bad"]:
+            if l.split()[0] == "hprepare" and b.strip() == "ok" and a.strip() != "ok" and not found:
+                rep.violation("prepare-refused-without-active-generation", "a Prepare for a name with no active generation on that instance was refused (%s)" % a.strip()[:60],
+                              {"scenario": r_["tag"], "lines": r_["lines"][:i + 1], "impl": r_["impl"][:i + 1]})
+                found = True
     out = run_model(jl)
     for m, o in zip(jm, out):
         if m is not None and o.strip() not in ("ok",):
@@ -3324,11 +3430,12 @@ THEOREMS.update({
                                "Dirk.Re.search_anchored", "Dirk.Re.matchFrom_iff"]),
     "C05": ("Dirk.Props.C05", ["Dirk.C05_generic_single", "Dirk.C05_generic_multi", "Dirk.C05_attest_only_attester",
                                "Dirk.C05_propose_only_proposer", "Dirk.C05_logs", "Dirk.C05_kernel_is_source"]),
-    "C06": ("Dirk.Props.C06", ["Dirk.C06_att", "Dirk.C06_prop", "Dirk.C06_sign", "Dirk.C06_atts", "Dirk.C06_msign",
+    "C06": ("Dirk.Props.C06Short", ["Dirk.C06_att", "Dirk.C06_prop", "Dirk.C06_sign", "Dirk.C06_atts", "Dirk.C06_msign",
                                "Dirk.C06_att_fault", "Dirk.C06_prop_fault", "Dirk.C06_batch_store_fault",
                                "Dirk.C06_batch_fetch_fault", "Dirk.C06_shape_atts", "Dirk.C06_shape_msign",
                                "Dirk.C06_lock_state_fault_att", "Dirk.C06_lock_state_fault_prop", "Dirk.C06_lock_state_fault_sign",
                                "Dirk.C06_lock_state_fault_atts", "Dirk.C06_lock_state_fault_msign",
+                               "Dirk.C06_unruled_atts", "Dirk.C06_unruled_msign", "Dirk.C06_unruled_is_prefix",
                                "Dirk.facts_rules_results", "Dirk.facts_result_switches_total", "Dirk.facts_result_switches_present"]),
 })
 
